@@ -155,6 +155,24 @@ func runSweep(repo *Repo, opt *checkOpts, update bool) sweepOutcome {
 			}
 		}
 	}
+	if lp := os.Getenv("GOVC_SWEEP_LIST"); lp != "" {
+		// triage aid: the clauses that do not discharge, with the verdicts and (kept) queries
+		var sb strings.Builder
+		os.MkdirAll(lp, 0o755)
+		for _, cl := range names {
+			a := aggs[cl]
+			if a.ok == a.n || a.worst == nil {
+				continue
+			}
+			w := a.worst
+			var vs []string
+			for _, at := range w.Attempts {
+				vs = append(vs, at.Solver+"="+at.Verdict)
+			}
+			fmt.Fprintf(&sb, "%s\t%d/%d\t%s\t%s\t%s\n", cl, a.ok, a.n, w.Verdict, w.Obl.Pos, strings.Join(vs, ","))
+		}
+		os.WriteFile(filepath.Join(lp, "undischarged.tsv"), []byte(sb.String()), 0o644)
+	}
 	if update {
 		data, _ := json.MarshalIndent(nowOK, "", " ")
 		os.WriteFile(basePath, append(data, '\n'), 0o644)
